@@ -4,8 +4,12 @@
 // a guest (through the wasiproxy pass-through module) with hostile argument
 // tuples drawn from per-role boundary sets (roles.go): the full cross product
 // for functions with at most three parameters, all value pairs plus PRNG
-// tuples beyond, and PRNG histories mixing all functions — in five
-// descriptor-table states, five mount/socket configurations, three stdio
+// tuples beyond, PRNG histories mixing all functions, and structured
+// poll_oneoff calls (well-formed subscription arrays on descriptors of every
+// class, in/out arrays placed normally, overlapping and at the end of memory)
+// — in eleven descriptor-table states (files open, renumbered, closed,
+// pre-open closed, each standard stream closed / all closed / stdin replaced
+// by a file), five mount/socket configurations, three stdio
 // configurations, 1- and 2-page memories, interpreter (all) and compiler
 // (sample). Four monitors decide every single call (child.go):
 //
@@ -110,26 +114,45 @@ func (b *builder) dims(cs *caseSpec) {
 
 type combo struct{ state, mount int }
 
-// combos: thorough = every state x every mount; quick = a diagonal through the
-// state x mount square that rotates with the function and the seed, so that a
-// quick run still puts every function into every state and sees every mount.
+// combos: thorough = every base state x every mount plus the stdio states x two
+// mounts; quick = a diagonal through the state x mount square that rotates with
+// the function and the seed, so that a quick run still sees every state and mount.
 func (b *builder) combos(f *fnSpec, fi int) []combo {
 	mounts := []int{mtDir, mtRODir, mtMapFS, mtDirFS}
 	if f.sock {
 		mounts = append(mounts, mtSock)
 	}
+	rot := fi + int(b.c.Seed)
+	if rot < 0 {
+		rot = -rot
+	}
 	var out []combo
+	// poll_oneoff looks descriptors up twice (per subscription, then stdin for
+	// the deferred ones): it runs in every state in both tiers
+	everyState := f.name == "poll_oneoff"
 	if !b.c.Quick() {
 		for s := 0; s < nStates; s++ {
-			for _, m := range mounts {
-				out = append(out, combo{s, m})
+			switch {
+			case s < nBaseStates || everyState:
+				for _, m := range mounts {
+					out = append(out, combo{s, m})
+				}
+			default: // stdio states: the writable mount and one rotating other
+				out = append(out, combo{s, mtDir}, combo{s, mounts[1+(s+rot)%(len(mounts)-1)]})
 			}
 		}
 		return out
 	}
-	rot := fi + int(b.c.Seed)
-	for s := 0; s < nStates; s++ {
-		out = append(out, combo{s, mounts[(s+rot)%len(mounts)]})
+	if everyState {
+		for s := 0; s < nStates; s++ {
+			out = append(out, combo{s, mounts[(s+rot)%len(mounts)]})
+		}
+		return append(out, combo{stNoStdin, mtSock})
+	}
+	// six of the states, rotating with the function and the seed (the stride
+	// is coprime to the number of states, so that the functions together use all)
+	for k := 0; k < 6; k++ {
+		out = append(out, combo{(rot + 2*k) % nStates, mounts[(k+rot)%len(mounts)]})
 	}
 	if f.sock { // the socket configuration is where sock_* get past EBADF
 		out = append(out, combo{(rot + 1) % nStates, mtSock})
@@ -211,6 +234,18 @@ func run(c *core.Ctx) int {
 		cs := caseSpec{Gen: "mix", Hi: mixLen, Seed: rng.U64(), State: i % nStates, Mount: (i / nStates) % (nMounts - 1)}
 		b.dims(&cs)
 		b.add(cs)
+	}
+
+	// structured poll_oneoff: well-formed subscription arrays in every state x configuration
+	nPoll := c.N(2, 12)
+	for s := 0; s < nStates; s++ {
+		for m := 0; m < nMounts; m++ {
+			for k := 0; k < nPoll; k++ {
+				cs := caseSpec{Fn: "poll_oneoff", Gen: "pollstruct", Hi: 48, Seed: rng.U64(), State: s, Mount: m}
+				b.dims(&cs)
+				b.add(cs)
+			}
+		}
 	}
 
 	// fd_renumber with huge targets really allocates (1 GiB for 2^27): those
@@ -299,7 +334,7 @@ func run(c *core.Ctx) int {
 	}
 	for k, v := range map[string]int64{"memory-diff-never-saw-a-write": st.memWritten, "shadow-table-never-saw-an-open": st.opened,
 		"shadow-table-never-saw-a-close": st.closed, "shadow-table-never-saw-a-renumber": st.moved, "compiler-engine-never-used": st.compiler,
-		"allocation-monitor-never-ran": st.allocChecks} {
+		"allocation-monitor-never-ran": st.allocChecks, "structured-poll_oneoff-never-ran": st.structured} {
 		if v == 0 {
 			missing = append(missing, k)
 		}
@@ -349,6 +384,7 @@ type stats struct {
 	moved        int64
 	compiler     int64
 	allocChecks  int64
+	structured   int64
 	maxAlloc     uint64
 	maxAllocCall string
 	maxSys       uint64
@@ -393,6 +429,8 @@ func (st *stats) handle(cs *caseSpec, r core.CaseResult) bool {
 	st.closed += int64(cr.FdsClosed)
 	st.moved += int64(cr.FdsMoved)
 	st.allocChecks += int64(cr.AllocChecks)
+	st.structured += int64(cr.Structured)
+	c.Count("structured_poll_oneoff_calls", int64(cr.Structured))
 	st.stateCalls[cs.State] += int64(cr.Calls)
 	st.mountCalls[cs.Mount] += int64(cr.Calls)
 	eng := "interpreter"
